@@ -445,6 +445,7 @@ partial def exec (x : XState) (args : List String) : XState × String :=
     | some (some _), some none => (x, "err")
     | _, _ => (x, "bad")
   | ["rm", k] => match dec k with | some (some k) => stepOp x (.remove k) | _ => (x, "bad")
+  | ["iterrace"] => exec x ["save"]   -- conc mode: a commit raced by a parked reader; for the model it is a commit
   | ["save"] =>
     let same := sameRoot x.vs
     -- hazard K24: a commit whose root is a persisted *legacy* node re-stores that node under
